@@ -107,7 +107,9 @@ REG.update({
         "level": "exploration",
         "tests": [{"pkg": "./chainsim", "run": "TestC08", "quick": 400, "thorough": 30000, "chunk": 25}],
         "rule": S5_RULE + ("Byzantine op: the honest sealed candidate is changed WITHOUT re-sealing (nonce+1, mix hash, gas used, coinbase, time, a dropped transaction, halved difficulty) - a reused seal on different content - and handed to the node; "
-                 "cases whose new hash meets the target by luck (p=1/difficulty) are discarded. Oracle: never accepted. Plus for every accepted block the harness recomputes blake3(mix||seal||nonce) itself and compares with the declared difficulty's target."),
+                 "cases whose new hash meets the target by luck (p=1/difficulty) are discarded. Oracle: never accepted. Plus for every accepted block the harness recomputes blake3(mix||seal||nonce) itself and compares with the declared difficulty's target; "
+                 "(workshare-target) copies of the accepted header are re-sealed with nonces whose hash falls at or below the workshare target 2^256/difficulty*2^k (k = the protocol's workshare threshold), within 2x above it and 2x..16x above it, and the node's CheckIfValidWorkShare must grade the first valid and the others not; "
+                 "(seal-covers-content) every field of the header in the pre-fork and in the post-KawPow layout (share counts and targets populated) is changed alone and the seal hash must move."),
         "expect_probes": ["byz.nonce+1-no-reseal", "byz.seal-reuse-coinbase", "byz.seal-reuse-tx-dropped", "byz.seal-reuse-difficulty-lowered"],
         "components": S5_COMPONENTS,
         "assumptions": ["only the blake3 engine is exercised: progpow/kawpow DAG hashing and the AuxPoW (SHA/Scrypt donor coinbase, merkle branch, template signature) clauses are NOT decided by this check",
@@ -138,8 +140,9 @@ REG.update({
         "tests": [{"pkg": "./chainsim", "run": "TestC04", "quick": 400, "thorough": 30000, "chunk": 25}],
         "rule": S5_RULE + ("Oracle over the recorded history (evaluated on the canonical line after reorgs, every 6th head change and at the end): a FIFO model of the destination queue fed by what the dominant chain delivered with each coincident block "
                  "(rawdb inbound-ETX records) - every executed inbound ETX must be the next queue item; every delivered ETX corresponds to exactly one ETX emitted earlier on the same canonical chain (key = originating tx hash + index), is delivered once, "
-                 "and is identical to the emitted one except for the value of conversions; every ETX followed by >=3 prime blocks and 3 more zone blocks has been executed. ETX kinds exercised: coinbase (Quai and Qi), Quai->Qi conversion."),
-        "expect_probes": ["reorg"],
+                 "and is identical to the emitted one except for the value of conversions; every ETX followed by >=3 prime blocks and 3 more zone blocks has been executed. ETX kinds exercised: coinbase (Quai and Qi), Quai->Qi conversion. "
+                 "Fault 'forged pending ETXs': for half of the mined blocks a peer that saw the sealed block first pushes a batch of pending ETXs for it (emptied, truncated, one value altered, one duplicated) at the region and prime chains before the node processes the block; every such batch must be refused and must not shadow the genuine one."),
+        "expect_probes": ["reorg", "forged_pending_etxs_emptied", "forged_pending_etxs_altered"],
         "components": S5_COMPONENTS,
         "assumptions": ["single slice (expansion 0): all ETXs are zone 0-0 -> prime -> zone 0-0; cross-zone delivery, region-level coincidence and delivery to 'another zone' are NOT exercised",
                         "byzantine destination blocks with permuted/duplicated/unknown inbound ETXs are covered only through the C07 body-mutation rows (drop/swap/duplicate a transaction)",
@@ -234,11 +237,14 @@ REG.update({
         "tests": [{"pkg": "./chainsim", "run": "TestC14", "quick": 320, "thorough": 25000, "chunk": 20}],
         "rule": S5_RULE + ("Monitors on every object the run produces: each block view that crosses the simulated wire (zone, region, prime; block and header views) is encoded with the real protobuf codec, decoded at the receiver's location and re-encoded - equal hash, header hash, seal hash, body, identical bytes; "
                  "every block is read back from each context's database through rawdb (hash, header hash, body sizes, receipts count); every block goes through MarshalJSON/UnmarshalJSON and through the JSON-RPC server form (RPCMarshalWorkObject v1 and v2) decoded as the client library does; "
-                 "every transaction and outbound ETX of every block (Quai, Qi with 1..3 inputs, conversions, coinbases with every lockup byte and data layout, claims, contract creation with access list) round-trips through protobuf and JSON with equal hash and identical re-encoding; "
+                 "every transaction and outbound ETX of every block (Quai, Qi with 1..3 inputs, conversions, coinbases with every lockup byte and data layout, claims, contract creation with access list) round-trips through protobuf and JSON with equal hash, field-by-field equal decoded object and identical re-encoding; every third Quai/Qi transaction is additionally copied with each of the 7 presence combinations of the optional work fields "
+                 "(parent hash, mix hash, work nonce): same round trips, and no two copies share a hash; the block's receipts are read back through rawdb.ReadReceipts: they hash to the header's receipt root, name the right transaction/block, carry block-wide sequential log indices "
+                 "(the forwarder contract emits two logs per call), and each receipt survives its consensus RLP encoding with logs and outbound ETXs; "
                  "a block rewritten in one consensus field (byzantine rows of C07/C08/C09) never shares the hash of the honest candidate."),
-        "expect_probes": ["reorg", "byz.tx-hash", "byz.parent-hash"],
+        "expect_probes": ["reorg", "byz.tx-hash", "byz.parent-hash", "block_with_logs_in_two_receipts"],
         "components": S5_COMPONENTS,
-        "assumptions": ["objects are those the node and the harness generate in runs; not all optional-field presence combinations (pure codec algebra over arbitrary inputs is outside this technique)",
+        "assumptions": ["objects are those the node and the harness generate in runs plus work-field presence copies of transactions; zero-vs-absent and maximum-width combinations of other fields are not generated (pure codec algebra over arbitrary inputs is outside this technique)",
+                        "Receipt.Status 'locked' (2) is stored as 'successful' (same consensus encoding); the processing-time receipt is not observable from outside the processor, so that field is not compared",
                         "termini, pending-ETX bundles and p2p request/response frames are exercised only indirectly (through the dom/sub calls and the node's own database reads)", "RLP of ETXs in the ETX trie is covered by C04's queue check only"],
     },
     "C03": {
@@ -259,14 +265,15 @@ REG.update({
                   {"pkg": "./evmsim", "run": "TestC15", "quick": 1600, "thorough": 150000, "chunk": 100}],
         "rule": ("Wire half (chainsim TestC15): " + S5_RULE + "Fault kind 'corrupted frame': every block view a run produces (block view and header view, zone/region/prime) is serialised with the production gossip codec (pb.ConvertAndMarshal), "
                  "corrupted 6 times (bit flip, truncation, byte deletion, byte duplication, 0xff, 0x00, inflated length prefix; positions derived from the block hash) and pushed through the production receive pipeline "
-                 "(pb.UnmarshalAndConvert -> Core.SanityCheck...ViewBody -> Core.WriteBlock and whatever the append does); every transaction of every block is corrupted 3 times as a protobuf transaction frame and fed to ProtoDecode and the live pool's AddRemote. "
+                 "(pb.UnmarshalAndConvert -> Core.SanityCheck...ViewBody -> Core.WriteBlock and whatever the append does); every transaction of every block is corrupted 3 times as a protobuf transaction frame and fed to ProtoDecode and the live pool's AddRemote; per block, AuxPoW donor frames (ProtoAuxPow for SHA_BTC, SHA_BCH and Scrypt donors around a coinbase whose scriptSig commits to the block's seal hash) are fed well-formed, "
+                 "with every truncation of the donor scriptSig, and with byte-level corruptions of the coinbase transaction and of the frame, through AuxPow.ProtoDecode and the parser sequence the share validator and header verification run (ExtractScriptSig/SignatureTime/SealHash/MerkleSizeAndNonce/Height, CalculateMerkleRoot, ValidatePrevOutPoint..., ConvertToTemplate().VerifySignature, PowHash). "
                  "Oracle: no panic escapes any of these entry points (the harness installs recover only to turn the panic into the violation) and the node can still return to its honest head. "
                  "EVM half (evmsim TestC15): the generated programs and gas cuts of the S3 harness with memory-heavy actions and large ETX data windows; a tracer records memory size and gas at every step; "
                  "oracle: the price of the memory growth a step causes (3 gas/word + words^2/512) never exceeds what that step was charged in total."),
-        "expect_probes": ["corrupt.bit-flip", "corrupt.truncate", "corrupt.huge-length-prefix", "corrupt.tx-bit-flip", "memory_growth_checked", "large_memory_expansion"],
+        "expect_probes": ["corrupt.bit-flip", "corrupt.truncate", "corrupt.huge-length-prefix", "corrupt.tx-bit-flip", "corrupt.donor-script-truncated", "donor_frames_parsed", "memory_growth_checked", "large_memory_expansion"],
         "components": {"real": S5_COMPONENTS["real"] + ["p2p/pb gossip codec (ConvertAndMarshal / UnmarshalAndConvert)", "Core.SanityCheckWorkObject*ViewBody", "TxPool.AddRemote", "vm interpreter with a vm.Tracer"],
-                       "stub": S5_COMPONENTS["stub"] + ["the libp2p transport and the gossipsub validator wrapper (signature/PoW filter of shares) are not run", "request/response frames, AuxPoW donor data, RLP and hex/JSON RPC argument decoders are not fed"]},
+                       "stub": S5_COMPONENTS["stub"] + ["the libp2p transport and the gossipsub validator wrapper (signature/PoW filter of shares) are not run", "request/response frames, RLP and hex/JSON RPC argument decoders are not fed", "the AuxPoW parser sequence is replayed from the gossip validator's source, the validator wrapper itself is not run"]},
         "assumptions": ["frames are corruptions of real traffic, not arbitrary byte strings", "the 'memory proportional to the input' clause of decoders is not measured (allocation deltas are not attributable in a multi-goroutine process)",
-                        "raw block submission, AuxPoW donor parsers, RLP and hex/JSON argument decoders are not exercised by this check"],
+                        "raw block submission, RLP and hex/JSON argument decoders are not exercised by this check"],
     },
 })
